@@ -141,14 +141,23 @@ def oracle_point(c, out):
 
 
 def squarest_pair(k):
-    """Factor pair (a, b), a * b == k, b <= a, with the smallest a - b (integer arithmetic only)."""
-    best = None
-    b = 1
-    while b * b <= k:
-        if k % b == 0:
-            best = (k // b, b)
-        b += 1
-    return best
+    """Factor pair (a, b), a * b == k, b <= a, with the smallest a - b.  Exact integer arithmetic only:
+    for small k every candidate b with b * b <= k is tried in increasing order; for large k the search
+    goes downward from the exact integer square root (the first divisor found is the largest b <= sqrt k,
+    and a - b = k / b - b decreases as b grows)."""
+    if k <= 10 ** 7:
+        best = None
+        b = 1
+        while b * b <= k:
+            if k % b == 0:
+                best = (k // b, b)
+            b += 1
+        return best
+    import math
+    b = math.isqrt(k)
+    while k % b:
+        b -= 1
+    return (k // b, b)
 
 
 def oracle_dims(c, out):
